@@ -520,7 +520,7 @@ pub fn run(run: &Run) {
 
     // ---- larger limits: random shapes at depth d-1, d, d+1; default parser
     if run.opts.wants("large") && !run.is_child() {
-        let n = run.opts.size(600, 20_000);
+        let n = run.opts.size(3_000, 60_000);
         run.parallel("large", n, |i, l| {
             let mut r = Rng::derive(seed, "c13-large", i);
             let (d, default) = match i % 6 {
